@@ -176,6 +176,13 @@ func Load(root string, extraEnv ...string) (*Program, error) {
 	if os.Getenv("GFS3_NO_PHISIMP") == "" {
 		p.PhisSimplified = SimplifyPhis(p.RepoFuncs())
 	}
+	if d := os.Getenv("GFS3_DUMP_SSA"); d != "" {
+		for n, fn := range p.funcs {
+			if strings.Contains(n, d) {
+				fn.WriteTo(os.Stderr)
+			}
+		}
+	}
 	p.SSASecs = time.Since(t1).Seconds()
 	return p, nil
 }
